@@ -283,6 +283,53 @@ def _fixed_cases():
 # ----------------------------------------------------------------------------
 # the real code
 # ----------------------------------------------------------------------------
+_BR = []          # branch labels of the modelled code reached while building the current case (histograms only)
+
+
+def _keys(p):
+    return [k for k, _ in p.terms(sort=False)]
+
+
+def _branch(op, t, a, b=None):
+    """which branch of the modelled code an operation takes (looked up on the operands, before the call)"""
+    try:
+        if op in ("add", "sub"):
+            ov = set(_keys(a)) & set(_keys(b))
+            _BR.append("add:intersection non-empty" if ov else "add:disjoint keys")
+        elif op == "mul":
+            sums = [i + j for i in _keys(a) for j in _keys(b)]
+            _BR.append("mul:accumulate hit" if len(set(sums)) < len(sums) else "mul:all sums distinct")
+        elif op == "pow":
+            n = t[2]
+            if n == 0:
+                _BR.append("pow:n=0")
+            elif len(a) == 0:
+                _BR.append("pow:empty")
+            elif len(a) == 1:
+                _BR.append("pow:one term, v==1" if list(a.terms())[0][1] == 1 else
+                           ("pow:one term, n<0" if n < 0 else "pow:one term, n>0"))
+            else:
+                _BR.append("pow:product, n>1" if n > 1 else ("pow:n=1 (self)" if n == 1 else "pow:n<0 on several terms (self)"))
+        elif op == "div":
+            _BR.append("div:by %s" % ("empty" if len(b) == 0 else ("one term" if len(b) == 1 else "several terms")) +
+                       (", empty dividend" if len(a) == 0 else ""))
+        elif op == "divs":
+            _BR.append("divs:%s%s" % ("zero" if b == 0 else "non-zero", ", empty dividend" if len(a) == 0 else ""))
+        elif op == "comp":
+            neg = any(k < 0 for k in _keys(a))
+            _BR.append("comp:%s outer, %s inner" % ("laurent" if neg else "polynomial",
+                                                    "empty" if len(b) == 0 else ("one-term" if len(b) == 1 else "several-term")))
+        elif op == "diff":
+            _BR.append("diff:has constant term" if 0 in _keys(a) else "diff:no constant term")
+        elif op == "integ":
+            _BR.append("integ:has power -1" if -1 in _keys(a) else "integ:ok")
+        elif op == "setitem":
+            _BR.append("setitem:%s, key %s" % ("zero" if dec(t[3]) == 0 else "non-zero",
+                                               "present" if t[2] in _keys(a) else "absent"))
+    except Exception:
+        pass
+
+
 def _build(t):
     from audiolazy import Poly, x as X0
     op = t[0]
@@ -304,11 +351,17 @@ def _build(t):
     if op == "pos":
         return +_build(t[1])
     if op == "add":
-        return _build(t[1]) + _build(t[2])
+        a, b = _build(t[1]), _build(t[2])
+        _branch(op, t, a, b)
+        return a + b
     if op == "sub":
-        return _build(t[1]) - _build(t[2])
+        a, b = _build(t[1]), _build(t[2])
+        _branch(op, t, a, b)
+        return a - b
     if op == "mul":
-        return _build(t[1]) * _build(t[2])
+        a, b = _build(t[1]), _build(t[2])
+        _branch(op, t, a, b)
+        return a * b
     if op == "adds":
         return _build(t[1]) + dec(t[2])
     if op == "radds":
@@ -322,19 +375,32 @@ def _build(t):
     if op == "rmuls":
         return dec(t[1]) * _build(t[2])
     if op == "divs":
-        return _build(t[1]) / dec(t[2])
+        a = _build(t[1])
+        _branch(op, t, a, dec(t[2]))
+        return a / dec(t[2])
     if op == "div":
-        return _build(t[1]) / _build(t[2])
+        a, b = _build(t[1]), _build(t[2])
+        _branch(op, t, a, b)
+        return a / b
     if op == "pow":
-        return _build(t[1]) ** t[2]
+        a = _build(t[1])
+        _branch(op, t, a)
+        return a ** t[2]
     if op == "comp":
-        return _build(t[1])(_build(t[2]))
+        a, b = _build(t[1]), _build(t[2])
+        _branch(op, t, a, b)
+        return a(b)
     if op == "diff":
-        return _build(t[1]).diff(t[2])
+        a = _build(t[1])
+        _branch(op, t, a)
+        return a.diff(t[2])
     if op == "integ":
-        return _build(t[1]).integrate()
+        a = _build(t[1])
+        _branch(op, t, a)
+        return a.integrate()
     if op == "setitem":
         p = _build(t[1]).copy()
+        _branch(op, t, p)
         p[t[2]] = dec(t[3])
         return p
     raise ValueError("bad tree op %r" % (op,))
@@ -423,11 +489,12 @@ def _laws(c):
 def impl(c):
     e = c["entry"]
     if e == "expr":
+        del _BR[:]
         try:
             p = _build(c["expr"])
         except Exception as ex:
-            return {"err": err_kind(ex)}
-        return _observe(p, c.get("vs", []), c.get("ks", []))
+            return {"err": err_kind(ex), "branches": list(_BR)}
+        return dict(_observe(p, c.get("vs", []), c.get("ks", [])), branches=list(_BR))
     if e == "laws":
         try:
             L = _laws(c)
@@ -651,6 +718,8 @@ def tally(eng, c, io):
         for o in set(_ops(t, [])):
             eng.count("op_used", o)
         eng.count("depth", _depth(t))
+        for b in io.get("branches", []):
+            eng.count("code_branch", b)
         if "err" in io:
             eng.count("impl_error", t[0] + ":" + io["err"])
             return
